@@ -9,6 +9,12 @@ import (
 )
 
 func (k Keeper) HandleCreateClient(ctx sdk.Context, p *types.CreateClientProposal) (exported.ClientState, error) {
+	// A client under the chain's own name would let messages claiming this chain as their source pass
+	// ValidatePacket and be "verified" against that client: the relay branch of RecvPacket could then (re-)create
+	// commitments under (this chain, dst, seq) that no send produced, and an acknowledgement could be replayed.
+	if p.ChainName == k.GetChainName(ctx) {
+		return nil, sdkerrors.Wrapf(types.ErrClientExists, "chain-name %s is the name of this chain", p.ChainName)
+	}
 	if _, has := k.GetClientState(ctx, p.ChainName); has {
 		return nil, sdkerrors.Wrapf(types.ErrClientExists, "chain-name: %s", p.ChainName)
 	}
